@@ -317,8 +317,7 @@ func secs(s string) (int64, bool) {
 }
 
 // build decodes a vector into the concrete case and evaluates the reference predicate.
-func build(v engine.Vec) (c caseT, want tri, rule string) {
-	g := func(n string) string { return space.Get(v, n) }
+func build(g func(string) string) (c caseT, want tri, rule string) {
 	p := map[string]any{"x-custom": map[string]any{"k": []any{"v", 1.0}}}
 	reject := func(r string) {
 		if want != mustReject {
@@ -479,6 +478,9 @@ func build(v engine.Vec) (c caseT, want tri, rule string) {
 	if c.wrong {
 		reject("bad-signature")
 	}
+	// sibling claims: registered claims of the other token types. The statement does not
+	// mention them, so none of them adds a reason to reject or to accept.
+	nbfFuture := addSiblings(p, g, c.alg, at)
 
 	var opts []rp.VerifierOption
 	opts = append(opts, rp.WithIssuedAtOffset(offset))
@@ -534,6 +536,9 @@ func build(v engine.Vec) (c caseT, want tri, rule string) {
 	if want != mustReject {
 		if band {
 			want, rule = either, "inside-clock-band"
+		} else if nbfFuture {
+			// RFC 7519 forbids processing before nbf, OIDC Core 3.1.3.7 does not list it: the oracle asks for less
+			want, rule = either, "nbf-in-future-either"
 		} else {
 			want, rule = mustAccept, "all-conditions-with-margin"
 		}
@@ -549,10 +554,12 @@ type view struct {
 	custom map[string]any // nil for *TokenClaims (no custom-claim map)
 	hasMap bool
 	idType bool
+	id     *oidc.IDTokenClaims     // set for the *IDTokenClaims containers
+	access *oidc.AccessTokenClaims // set for the *AccessTokenClaims container
 }
 
-func run(t *testing.T, v engine.Vec) engine.Result {
-	c, want, rule := build(v)
+func run(t *testing.T, g func(string) string) engine.Result {
+	c, want, rule := build(g)
 	payload, _ := json.Marshal(c.payload)
 	tok := sign(c.alg, c.wrong, payload)
 	var got view
@@ -561,7 +568,7 @@ func run(t *testing.T, v engine.Vec) engine.Result {
 		if cl == nil {
 			return view{isNil: true}
 		}
-		return view{base: &cl.TokenClaims, atHash: cl.AccessTokenHash, custom: cl.Claims, hasMap: true, idType: true}
+		return view{base: &cl.TokenClaims, atHash: cl.AccessTokenHash, custom: cl.Claims, hasMap: true, idType: true, id: cl}
 	}
 	pan := engine.Bubble(t, c.now.Sub(engine.Epoch), func() {
 		ctx := context.Background()
@@ -584,7 +591,7 @@ func run(t *testing.T, v engine.Vec) engine.Result {
 			if cl == nil {
 				got = view{isNil: true}
 			} else {
-				got = view{base: &cl.TokenClaims, custom: cl.Claims, hasMap: true}
+				got = view{base: &cl.TokenClaims, custom: cl.Claims, hasMap: true, access: cl}
 			}
 		default:
 			panic(c.mode)
@@ -681,7 +688,7 @@ func claimsDiff(g view, p map[string]any, alg string) string {
 			return "at_hash"
 		}
 	}
-	return ""
+	return siblingDiff(g, p)
 }
 
 func TestCheck(t *testing.T) {
@@ -706,9 +713,10 @@ func TestCheck(t *testing.T) {
 		},
 		Ks: []int{kRest, kAlg, kRest, kTime},
 		NewWorker: func(int) func(engine.Vec) engine.Result {
-			return func(v engine.Vec) engine.Result { return run(t, v) }
+			return func(v engine.Vec) engine.Result { return run(t, mainIx.get(v)) }
 		},
 	})
+	runSiblings(t, c)
 	c.RunE1(engine.E1{
 		Part:  "athash",
 		Space: atSpace,
